@@ -351,6 +351,21 @@ func (tb *LTable) ForEach(cb func(LValue, LValue)) {
 	}
 }
 
+// validNextKey reports whether key can be a position of a traversal of tb: nil,
+// a key recorded in the hash part (also one whose field was cleared since: fields
+// may be cleared during a traversal), or a positive integer (an array position;
+// the array part may have been trimmed after the key was returned).
+func (tb *LTable) validNextKey(key LValue) bool {
+	if key == LNil {
+		return true
+	}
+	if kv, ok := key.(LNumber); ok && isInteger(kv) && int(kv) >= 1 && kv < LNumber(MaxArrayIndex) {
+		return true
+	}
+	_, ok := tb.k2i[key]
+	return ok
+}
+
 // This function is equivalent to lua_next ( http://www.lua.org/manual/5.1/manual.html#lua_next ).
 func (tb *LTable) Next(key LValue) (LValue, LValue) {
 	init := false
